@@ -24,9 +24,39 @@ ASSUMPTIONS = ["steady_clock is monotonic", "duration_cast<seconds> floors"]
 EPOCH = "std::chrono::steady_clock::time_point()"
 
 
+def time_roles(ctx, f, start_field, who):
+    """(NOW, AGE): the local holding this tick's clock reading and the local holding the whole-second age of `start_field`.
+    Found by what they are initialised with, not by name."""
+    nows = locals_receiving(f, r"::now\(\)")
+    if len(nows) != 1:
+        raise AnalysisBroken("anchor: %s keeps the clock reading in %d locals %s; the window rules need exactly one" % (f.pq, len(nows), nows))
+    NOW = nows[0]
+    ages = locals_receiving(f, r"duration_cast\(\(%s - this->%s\)\)\.count\(\)" % (re.escape(NOW), re.escape(start_field)))
+    if len(ages) != 1:
+        raise AnalysisBroken("anchor: %s keeps the age of %s in %d locals %s; the window rules need exactly one" % (f.pq, start_field, len(ages), ages))
+    return NOW, ages[0]
+
+
+def age_checks(ctx, f, NOW, AGE, start_field, who):
+    init, v = local_init(f, NOW)
+    ctx.check(v is not None and f.text(init) == "std::chrono::steady_clock::now()", who + ":now-is-steady-clock", "value-shape", f.loc(), "the clock reading is steady_clock::now()", "clock reading = " + (f.text(init) if v else "?"))
+    init, v = local_init(f, AGE)
+    secs = False
+    if v is not None:
+        for x in f.walk(init):
+            nn = f.nodes[x]
+            if nn["k"] == "call" and nn.get("cname") == "duration_cast":
+                ty = nn.get("type", "").replace(" ", "")
+                # duration<long> == duration<long, ratio<1,1>> == seconds
+                secs = "seconds" in ty or ty.endswith("std::chrono::duration<long>>") or ty in ("std::chrono::duration<long>", "std::chrono::duration<long,std::ratio<1,1>>")
+    ctx.check(v is not None and re.match(r"^std::chrono::duration_cast\(\(%s - this->%s\)\)\.count\(\)$" % (re.escape(NOW), re.escape(start_field)), f.text(init)) is not None and secs,
+              who + ":age-in-whole-seconds", "value-shape", f.loc(), "age = duration_cast<seconds>(now - start).count()", "age = " + (f.text(init) if v else "?"))
+
+
 def window_rules(ctx, f, watched, thr="this->threshold_", who=""):
+    """The arm / disarm typestate of hit_thres_at_ around the window condition `watched > threshold` (strict)."""
     P, cg = ctx.prog, ctx.cg
-    ctx.anchor(f, "now", "diff")
+    NOW, AGE = time_roles(ctx, f, "hit_thres_at_", who)
     key = "(%s < %s)" % (thr, watched)          # watched > threshold, strict
     fl = Flow(P, f, cg=cg)
     # the condition exists as a branch
@@ -37,7 +67,7 @@ def window_rules(ctx, f, watched, thr="this->threshold_", who=""):
                 keys.add(k)
     ctx.check(key in keys, who + ":window-condition-strict", "guard-shape", f.loc(),
               "window condition is '%s > threshold' (strict)" % watched,
-              "no branch on '%s > %s' (strict): found %s" % (watched, thr, sorted(k for k in keys if "threshold_" in k)))
+              "no branch on '%s > %s' (strict): found %s" % (watched, thr, sorted(k for k in keys if isinstance(k, str) and "threshold_" in k)))
     hw = field_writes(f, "hit_thres_at_")
     resets = [w for w in hw if f.text(write_rhs(f, w)).endswith("time_point()")]
     arms = [w for w in hw if w not in resets]
@@ -49,8 +79,8 @@ def window_rules(ctx, f, watched, thr="this->threshold_", who=""):
     for w in arms:
         g = fl.guards(w)
         armed_guard = any(p is True and re.match(r"^\((this->hit_thres_at_ == .*time_point\(\)|.*time_point\(\) == this->hit_thres_at_)\)$", k) for k, p in g)
-        ctx.check((key, True) in g and armed_guard and f.text(write_rhs(f, w)) == "now", who + ":arm-once-with-now", "guarded_by", f.loc(w),
-                  "start time is set to 'now' only when exceeding and not yet armed", "hit_thres_at_ written with '%s' under %s" % (f.text(write_rhs(f, w)), sorted(g, key=str)))
+        ctx.check((key, True) in g and armed_guard and f.text(write_rhs(f, w)) == NOW, who + ":arm-once-with-now", "guarded_by", f.loc(w),
+                  "start time is set to this tick's clock reading only when exceeding and not yet armed", "hit_thres_at_ written with '%s' under %s" % (f.text(write_rhs(f, w)), sorted(g, key=str)))
     # every path that took the not-exceeding edge resets before leaving
     ev = {w: [("clear", "needs-reset")] for w in resets}
     fe = Flow(P, f, events=ev, cg=cg, edge_tokens=lambda k, p: ["needs-reset"] if (k == key and p is False) else None)
@@ -74,21 +104,42 @@ def window_rules(ctx, f, watched, thr="this->threshold_", who=""):
               "every return has compared this tick's value with the threshold (or reset the clock): no tick leaves a stale start time behind",
               "run() can return at %s without comparing the watched value with the threshold and without resetting hit_thres_at_: a tick without "
               "an exceeding sample does not restart the duration clock" % ", ".join(sorted(set(bad))))
-    # now / diff
-    init, v = local_init(f, "now")
-    ctx.check(v is not None and f.text(init) == "std::chrono::steady_clock::now()", who + ":now-is-steady-clock", "value-shape", f.loc(), "now = steady_clock::now()", "now = " + (f.text(init) if v else "?"))
-    init, v = local_init(f, "diff")
-    secs = False
-    if v is not None:
-        for x in f.walk(init):
-            nn = f.nodes[x]
-            if nn["k"] == "call" and nn.get("cname") == "duration_cast":
-                ty = nn.get("type", "").replace(" ", "")
-                # duration<long> == duration<long, ratio<1,1>> == seconds
-                secs = "seconds" in ty or ty.endswith("std::chrono::duration<long>>") or ty in ("std::chrono::duration<long>", "std::chrono::duration<long,std::ratio<1,1>>")
-    ctx.check(v is not None and re.match(r"^std::chrono::duration_cast\(\(now - this->hit_thres_at_\)\)\.count\(\)$", f.text(init)) is not None and secs,
-              who + ":age-in-whole-seconds", "value-shape", f.loc(), "age = duration_cast<seconds>(now - start).count()", "age = " + (f.text(init) if v else "?"))
-    return fl, key
+    age_checks(ctx, f, NOW, AGE, "hit_thres_at_", who)
+    return fl, key, AGE
+
+
+def window_full(f, fl, g, key, AGE):
+    """Do the facts `g` say 'exceeding now and age >= duration'?  Either directly, or through a boolean flag local every source of
+    which is `false`, `true` under exactly those facts, or the age comparison itself under the exceeding fact."""
+    agek = "(%s < this->duration_)" % AGE
+    if (key, True) in g and (agek, False) in g:
+        return True, "window condition and age test"
+    AGE_TRUE = ("(%s >= this->duration_)" % AGE, "(this->duration_ <= %s)" % AGE, "!(%s < this->duration_)" % AGE)
+    for k, p in g:
+        if p is not True or not isinstance(k, str) or not re.match(r"^\w+$", k):
+            continue
+        init, v = local_init(f, k, must=False)
+        if v is None or v.get("type", "").replace("const ", "") != "bool":
+            continue
+        srcs = []
+        if init is not None and init >= 0:
+            d = next((d_ for d_ in f.all("decl") if any(v_ is v or v_.get("decl") == v.get("decl") for v_ in f.nodes[d_].get("vars", []))), None)
+            srcs.append((f.text(init), fl.guards(d) if d is not None and f.pos_of(d) is not None else []))
+        for w in local_writes(f, k, must=False):
+            srcs.append((f.text(write_rhs(f, w)), fl.guards(w)))
+        ok, strong = True, False
+        for rhs, gs in srcs:
+            if rhs == "false":
+                continue
+            if rhs == "true" and (key, True) in gs and (agek, False) in gs:
+                strong = True
+            elif rhs in AGE_TRUE and (key, True) in gs:
+                strong = True
+            else:
+                ok = False
+        if ok and strong:
+            return True, "flag " + k
+    return False, ""
 
 
 def recorded_on_every_exit(ctx, f, fld, src):
@@ -124,86 +175,111 @@ def run(ctx):
     pa = ctx.fn1("Oomd::PressureAbove::run")
     prb = ctx.fn1("Oomd::PressureRisingBeyond::run")
     ma = ctx.fn1("Oomd::MemoryAbove::run")
-    for f, watched, who in ((pa, "current_pressure.sec_10", "pressure_above"), (ma, "current_memory_usage", "memory_above")):
-        ctx.anchor(f, *watched.split(".")[:1])
-        fl, key = window_rules(ctx, f, watched, who=who)
+
+    def sample_local(f):
+        """the function-level ResourcePressure local: this tick's sample (the per-cgroup one lives inside the loop)"""
+        c = [n_ for n_, v_ in function_level_locals(f, r"(^|::)ResourcePressure$")]
+        if len(c) != 1:
+            raise AnalysisBroken("anchor: %s has %d function-level ResourcePressure locals %s; the rules need exactly one (this tick's sample)" % (f.pq, len(c), c))
+        return c[0]
+
+    def threshold_local(f):
+        """the local that is compared with threshold_"""
+        fl_ = Flow(P, f, cg=cg)
+        c = set()
+        for b_ in f.cfg:
+            for j_ in range(len(b_["succ"])):
+                for k_, p_ in fl_.edge_facts(b_["id"], j_):
+                    m_ = re.match(r"^\((?:this->threshold_ < (\w+)|(\w+) < this->threshold_|(\w+) == this->threshold_|this->threshold_ == (\w+))\)$", k_) if isinstance(k_, str) else None
+                    if m_:
+                        c.add(next(x for x in m_.groups() if x))
+        if len(c) != 1:
+            raise AnalysisBroken("anchor: %s compares %d locals %s with threshold_; the rules need exactly one" % (f.pq, len(c), sorted(c)))
+        return c.pop()
+    PA_S = sample_local(pa)
+    MA_W = threshold_local(ma)
+    for f, watched, who in ((pa, PA_S + ".sec_10", "pressure_above"), (ma, MA_W, "memory_above")):
+        fl, key, AGE = window_rules(ctx, f, watched, who=who)
         seen = set()
-        for r in returns(f):
-            c = ret_const(f, r)
-            g = fl.guards(r)
+        for r, leaf in return_leaves(f):
+            c = ret_const_of(f, leaf)
+            g = fl.guards(leaf)
             seen.add(c)
             if c == "CONTINUE":
-                ok = (key, True) in g and any(k in ("(diff < this->duration_)",) and p is False for k, p in g)
+                ok, how = window_full(f, fl, g, key, AGE)
                 ctx.check(ok, who + ":CONTINUE-iff-window-full", "return_table", f.loc(r), "CONTINUE only while exceeding and age >= duration",
                           "CONTINUE returned under %s" % sorted(g, key=str))
             else:
                 ctx.check(c == "STOP", who + ":otherwise-STOP", "return_table", f.loc(r), "otherwise STOP", "returns " + str(c))
         ctx.check(seen == {"CONTINUE", "STOP"}, who + ":return-values", "return_table", f.loc(), "returns CONTINUE or STOP", "returns " + str(sorted(map(str, seen))))
-    ctx.anchor(prb, "current_pressure", "pressure_duration_met_60s", "above_threshold_10s", "falling_rapidly_10s")
-    fl, key = window_rules(ctx, prb, "current_pressure.sec_60", who="pressure_rising_beyond")
-    for w in local_writes(prb, "pressure_duration_met_60s"):
-        g = fl.guards(w)
-        ctx.check(prb.text(write_rhs(prb, w)) == "true" and (key, True) in g and any(k == "(diff < this->duration_)" and p is False for k, p in g),
-                  "pressure_rising_beyond:window-flag", "guarded_by", prb.loc(w), "the 60 s window flag is set only while exceeding and age >= duration", "window flag set under %s" % sorted(g, key=str))
-    init, v = local_init(prb, "pressure_duration_met_60s")
-    ctx.check(v is not None and prb.text(init) == "false", "pressure_rising_beyond:window-flag-init", "vardecl", prb.loc(), "window flag starts false", "window flag starts " + (prb.text(init) if v else "?"))
-    init, v = local_init(prb, "above_threshold_10s")
-    ctx.check(v is not None and prb.text(init) == "(current_pressure.sec_10 > this->threshold_)", "pressure_rising_beyond:10s-above", "value-shape", prb.loc(), "10 s level must be strictly above threshold",
-              "above_threshold_10s = " + (prb.text(init) if v else "?"))
-    init, v = local_init(prb, "falling_rapidly_10s")
-    ctx.check(v is not None and prb.text(init) == "(current_pressure.sec_10 < (this->last_pressure_.sec_10 * this->fast_fall_ratio_))", "pressure_rising_beyond:fast-fall", "value-shape", prb.loc(),
-              "falling fast = sec_10 < last.sec_10 * fast_fall_ratio", "falling_rapidly_10s = " + (prb.text(init) if v else "?"))
+    S = sample_local(prb)
+    fl, key, AGE = window_rules(ctx, prb, S + ".sec_60", who="pressure_rising_beyond")
+    K10 = "(this->threshold_ < %s.sec_10)" % S
+    FALL = ("(%s.sec_10 < (this->last_pressure_.sec_10 * this->fast_fall_ratio_))" % S, "(%s.sec_10 < (this->fast_fall_ratio_ * this->last_pressure_.sec_10))" % S)
     fl2 = Flow(P, prb, cg=cg)
-    for r in returns(prb):
-        c = ret_const(prb, r)
-        g = fl2.guards(r)
+    for r, leaf in return_leaves(prb):
+        c = ret_const_of(prb, leaf)
+        g = fl2.guards(leaf)
         if c == "CONTINUE":
-            ctx.check(("pressure_duration_met_60s", True) in g and ("above_threshold_10s", True) in g and ("falling_rapidly_10s", False) in g,
+            full, how = window_full(prb, fl2, g, key, AGE)
+            ctx.check(full, "pressure_rising_beyond:window-flag", "guarded_by", prb.loc(r), "CONTINUE only with the 60 s value exceeding and age >= duration (directly or through a flag set exactly there)",
+                      "CONTINUE does not depend on the 60 s window being full: guards %s" % sorted((k, p) for k, p in g if isinstance(p, bool)))
+            above = (K10, True) in g
+            notfalling = any((k_, False) in g for k_ in FALL)
+            ctx.check(above, "pressure_rising_beyond:10s-above", "value-shape", prb.loc(r), "10 s level must be strictly above threshold",
+                      "CONTINUE is not dominated by '%s.sec_10 > threshold_'" % S)
+            ctx.check(notfalling, "pressure_rising_beyond:fast-fall", "value-shape", prb.loc(r),
+                      "not falling fast: sec_10 >= last.sec_10 * fast_fall_ratio", "CONTINUE is not dominated by the negated fast-fall test sec_10 < last.sec_10 * fast_fall_ratio")
+            ctx.check(full and above and notfalling,
                       "pressure_rising_beyond:CONTINUE-iff-all-three", "return_table", prb.loc(r), "CONTINUE iff window full, 10 s above threshold and not falling fast",
-                      "CONTINUE returned under %s" % sorted((k, p) for k, p in g if "10s" in k or "60s" in k))
+                      "CONTINUE returned under %s" % sorted((k, p) for k, p in g if isinstance(p, bool)))
         else:
             ctx.check(c == "STOP", "pressure_rising_beyond:otherwise-STOP", "return_table", prb.loc(r), "otherwise STOP", "returns " + str(c))
-    # last sample recorded on every exit (scope guard)
-    for f, fld, src, who in ((prb, "last_pressure_", "current_pressure", "pressure_rising_beyond"), (pa, "last_pressure_", "current_pressure", "pressure_above")):
-        lam = [l for l in P.lambdas_in(f) if field_writes(l, fld)]
-        ok = False
-        for e_ in cg.out.get(f.usr, ()):
-            if e_.kind == "scope-exit" and any(l.usr == e_.dst for l in lam):
-                ok = True
-        texts = [l.text(write_rhs(l, w)) for l in lam for w in field_writes(l, fld)]
-        if f is prb:
-            okr, texts = recorded_on_every_exit(ctx, f, fld, src)
-            ctx.check(okr, who + ":last-sample-recorded-on-every-exit", "must_follow", f.loc(), "the last sample is recorded on every exit",
-                      "last_pressure_ is not updated on every exit (writes: %s)" % texts)
-            # the fast-fall test reads the PREVIOUS sample: the guard runs at exit, after the test
+    # last sample recorded on every exit (scope guard or direct assignments)
+    okr, texts = recorded_on_every_exit(ctx, prb, "last_pressure_", S)
+    ctx.check(okr, "pressure_rising_beyond:last-sample-recorded-on-every-exit", "must_follow", prb.loc(), "the last sample is recorded on every exit",
+              "last_pressure_ is not updated on every exit (writes: %s)" % texts)
+    # the fast-fall test reads the PREVIOUS sample: a scope guard runs at exit, after the test; a direct assignment has to come after it
+    cmpn = [i for i, n_ in enumerate(prb.nodes) if n_["k"] == "bin" and n_.get("op") in ("<", ">", "<=", ">=") and "last_pressure_" in prb.text(i) and prb.pos_of(i) is not None]
+    for w in field_writes(prb, "last_pressure_"):
+        fo = Flow(P, prb, events={c_: [("set", "compared")] for c_ in cmpn}, cg=cg)
+        ctx.check(bool(cmpn) and fo.must(w, "compared"), "pressure_rising_beyond:record-after-fast-fall-test", "order", prb.loc(w), "the previous sample is overwritten only after the fast-fall test read it",
+                  "last_pressure_ is overwritten before the fast-fall test reads it: the test compares the sample with itself")
     # ------------------------------------------------ memory_reclaim
     mr = ctx.fn1("Oomd::MemoryReclaim::run")
-    ctx.anchor(mr, "pgscan", "now", "diff")
+    NOW, AGE = time_roles(ctx, mr, "last_reclaim_at_", "memory_reclaim")
+    # this tick's sum: the function-level integer local that is accumulated in the loop over the cgroups
+    sums = [n_ for n_, v_ in function_level_locals(mr, r"^(const )?(int64_t|uint64_t|long|unsigned long|long long)$") if any(mr.nodes[w].get("op") == "+=" for w in local_writes(mr, n_, must=False))]
+    if len(sums) != 1:
+        raise AnalysisBroken("anchor: MemoryReclaim::run accumulates %d function-level integer locals %s; the rules need exactly one (the pgscan sum)" % (len(sums), sums))
+    SUM = sums[0]
     fm = Flow(P, mr, cg=cg)
     stamps = field_writes(mr, "last_reclaim_at_")
-    gk = "(this->last_pgscan_ < pgscan)"
+    gk = "(this->last_pgscan_ < %s)" % SUM
     for w in stamps:
         g = fm.guards(w)
-        ctx.check((gk, True) in g and mr.text(write_rhs(mr, w)) == "now", "memory_reclaim:stamp-iff-pgscan-grew", "guarded_by", mr.loc(w), "reclaim time is stamped only when pgscan grew (strictly)",
+        ctx.check((gk, True) in g and mr.text(write_rhs(mr, w)) == NOW, "memory_reclaim:stamp-iff-pgscan-grew", "guarded_by", mr.loc(w), "reclaim time is stamped only when pgscan grew (strictly)",
                   "last_reclaim_at_ written under %s" % sorted(g, key=str))
-    init, v = local_init(mr, "diff")
+    init, v = local_init(mr, AGE)
     fe = Flow(P, mr, events={w: [("set", "stamped")] for w in stamps}, cg=cg, edge_tokens=lambda k, p: ["grew"] if (k == gk and p is True) else None)
-    di = [d for d in mr.all("decl") if any(vv["name"] == "diff" for vv in mr.nodes[d].get("vars", []))]
+    di = [d for d in mr.all("decl") if any(vv["name"] == AGE for vv in mr.nodes[d].get("vars", []))]
     okm = bool(stamps) and bool(di)
     for d in di:
         for st in (fe.at(d) or {}).values():
             if "grew" in st.may and "stamped" not in st.must and "grew" in st.must:
                 okm = False
     ctx.check(okm, "memory_reclaim:growth-always-stamps", "must_follow", mr.loc(), "growth of pgscan always updates the reclaim time before the age is computed", "pgscan growth can be missed")
-    ctx.check(v is not None and re.match(r"^std::chrono::duration_cast\(\(now - this->last_reclaim_at_\)\)\.count\(\)$", mr.text(init)) is not None, "memory_reclaim:age", "value-shape", mr.loc(),
+    age_checks(ctx, mr, NOW, AGE, "last_reclaim_at_", "memory_reclaim")
+    ctx.check(v is not None and re.match(r"^std::chrono::duration_cast\(\(%s - this->last_reclaim_at_\)\)\.count\(\)$" % re.escape(NOW), mr.text(init)) is not None, "memory_reclaim:age", "value-shape", mr.loc(),
               "age = seconds(now - last_reclaim_at_)", "age = " + (mr.text(init) if v else "?"))
-    for r in returns(mr):
-        c = ret_const(mr, r)
-        g = fm.guards(r)
-        le = any(k == "(this->duration_ < diff)" and p is False for k, p in g)
-        gt = any(k == "(this->duration_ < diff)" and p is True for k, p in g)
+    agek = "(this->duration_ < %s)" % AGE
+    for r, leaf in return_leaves(mr):
+        c = ret_const_of(mr, leaf)
+        g = fm.guards(leaf)
+        le = (agek, False) in g
+        gt = (agek, True) in g
         ctx.check((c == "CONTINUE" and le) or (c == "STOP" and gt), "memory_reclaim:return-table:" + str(c), "return_table", mr.loc(r), "CONTINUE iff age <= duration", "%s returned under %s" % (c, sorted(g, key=str)))
-    okr, texts = recorded_on_every_exit(ctx, mr, "last_pgscan_", "pgscan")
+    okr, texts = recorded_on_every_exit(ctx, mr, "last_pgscan_", SUM)
     ctx.check(okr, "memory_reclaim:pgscan-recorded-on-every-exit", "must_follow", mr.loc(), "the pgscan sum is recorded on every exit",
               "last_pgscan_ is not set to this tick's sum on every exit (writes: %s): it stops being the previous tick's value, so 'pgscan grew' is "
               "judged against an older sample" % texts)
@@ -213,56 +289,92 @@ def run(ctx):
         fo = Flow(P, mr, events={c: [("set", "compared")] for c in cmpn}, cg=cg)
         ctx.check(bool(cmpn) and fo.must(w, "compared"), "memory_reclaim:record-after-comparison", "order", mr.loc(w), "the previous sample is overwritten only after it was compared",
                   "last_pgscan_ is overwritten before the growth comparison reads it")
-    # the comparison uses the previous sample: the scope guard is armed before the comparison but runs at exit
     for l in loop_over(mr, "cgroups_"):
-        sums = local_writes(mr, "pgscan")
-        ctx.check(all(mr.nodes[w].get("op") == "+=" for w in sums) and bool(sums), "memory_reclaim:pgscan-sum", "value-shape", mr.loc(), "pgscan is summed over the cgroups", "pgscan is not a sum")
-    # ------------------------------------------------ swap_free
+        ws_ = local_writes(mr, SUM)
+        ctx.check(all(mr.nodes[w].get("op") == "+=" for w in ws_) and bool(ws_), "memory_reclaim:pgscan-sum", "value-shape", mr.loc(), "pgscan is summed over the cgroups", "pgscan is not a sum")
+    # ------------------------------------------------ swap_free: stated over what the locals hold (system context fields), not their names
     sf = ctx.fn1("Oomd::SwapFree::run")
-    ctx.anchor(sf, "swaptotal", "swapused", "swapthres", "system_ctx")
     fs_ = Flow(P, sf, cg=cg)
-    init, v = local_init(sf, "swapthres")
-    ctx.check(v is not None and sf.text(init) == "((swaptotal * this->threshold_pct_) / 100)", "swap_free:threshold", "value-shape", sf.loc(), "threshold = total * pct / 100", "swapthres = " + (sf.text(init) if v else "?"))
-    for r in returns(sf):
-        c = ret_const(sf, r)
-        g = fs_.guards(r)
-        low = any(k == "((swaptotal - swapused) < swapthres)" and p is True for k, p in g)
-        rate = any(k == "(system_ctx.swapout_bps < this->swapout_bps_threshold_)" and p is False for k, p in g)
+    Xs = Expander(P, sf)
+    SYS = r"param:\w+\.getSystemContext\(\)"
+    LOW = re.compile(r"^\(\(%s\.swaptotal - %s\.swapused\) < \(\(%s\.swaptotal \* this->threshold_pct_\) / 100\)\)$" % (SYS, SYS, SYS))
+    RATE = re.compile(r"^\(%s\.swapout_bps < this->swapout_bps_threshold_\)$" % SYS)
+    n_low = 0
+    for r, leaf in return_leaves(sf):
+        c = ret_const_of(sf, leaf)
+        g = expanded_guards(P, sf, fs_, leaf, Xs)
+        low = any(LOW.match(k) and p is True for k, p in g if isinstance(k, str))
+        rate = any(RATE.match(k) and p is False for k, p in g if isinstance(k, str))
         if c == "CONTINUE":
-            ctx.check(low and rate, "swap_free:CONTINUE-iff-low-and-swapping", "return_table", sf.loc(r), "CONTINUE iff free < threshold (strict) and swap-out rate >= its threshold", "CONTINUE under %s" % sorted(g, key=str))
+            n_low += 1
+            ctx.check(low and rate, "swap_free:CONTINUE-iff-low-and-swapping", "return_table", sf.loc(r), "CONTINUE iff free < total * pct / 100 (strict) and swap-out rate >= its threshold",
+                      "CONTINUE under %s" % sorted(((k, p) for k, p in g if isinstance(k, str) and "param:" in k), key=str))
         else:
             ctx.check(c == "STOP" and not (low and rate), "swap_free:otherwise-STOP", "return_table", sf.loc(r), "otherwise STOP", "%s under %s" % (c, sorted(g, key=str)))
+    ctx.check(n_low >= 1, "swap_free:threshold", "value-shape", sf.loc(), "threshold = total * pct / 100 is what free swap is compared with", "swap_free has no CONTINUE return")
     # ------------------------------------------------ exists
     ex = ctx.fn1("Oomd::Exists::run")
-    ctx.anchor(ex, "exists")
     fx = Flow(P, ex, cg=cg)
-    ws = local_writes(ex, "exists")
-    t = sorted(ex.text(write_rhs(ex, w)) for w in ws)
-    ctx.check(t == ["!exists", "true"], "exists:flag-writes", "value-shape", ex.loc(), "exists is set on a match and negated once when configured", "exists written with " + str(t))
-    for w in ws:
+    Xe = Expander(P, ex)
+    # the match flag: the function-level bool that is set inside the loop over the patterns
+    lps = loop_over(ex, "cgroups_")
+    flags = []
+    for n_, v_ in function_level_locals(ex, r"^(const )?bool$"):
+        # lexically inside the loop statement (a write followed by break / goto is not part of the natural loop)
+        if any(any(l["stmt"] in list(ex.ancestors(w)) for l in lps) for w in local_writes(ex, n_, must=False)):
+            flags.append(n_)
+    if len(flags) != 1 or len(lps) != 1:
+        raise AnalysisBroken("anchor: Exists::run has %d loops over cgroups_ and %d bool flags written in it %s; the rules need one of each" % (len(lps), len(flags), flags))
+    FL = flags[0]
+    wk = loop_walk(ex, lps[0])
+    init, v = local_init(ex, FL)
+    ctx.check(v is not None and ex.text(init) == "false", "exists:flag-init", "vardecl", ex.loc(), "the match flag starts false", "match flag starts " + (ex.text(init) if v else "?"))
+    ws = local_writes(ex, FL)
+    inloop = [w for w in ws if any(l["stmt"] in list(ex.ancestors(w)) for l in lps)]
+    after = [w for w in ws if w not in inloop]
+    for w in inloop:
         g = fx.guards(w)
-        rhs = ex.text(write_rhs(ex, w))
-        if rhs == "true":
-            ctx.check(any(p is True and "resolveWildcard().size()" in k for k, p in g), "exists:true-iff-some-match", "guarded_by", ex.loc(w), "set when some pattern resolves to an existing cgroup", "set under %s" % sorted(g, key=str))
-        else:
-            ctx.check(("this->negate_", True) in g, "exists:negate", "guarded_by", ex.loc(w), "negated only with 'negate'", "negated under %s" % sorted(g, key=str))
-    for r in returns(ex):
-        c = ret_const(ex, r)
-        g = fx.guards(r)
-        ctx.check((c == "CONTINUE" and ("exists", True) in g) or (c == "STOP" and ("exists", False) in g), "exists:return-table:" + str(c), "return_table", ex.loc(r), "CONTINUE iff (exists xor negate)",
+        el = wk["elem"] if wk else r"^\w+"
+        matched = any(p is True and re.match(el, k) and re.search(r"(\.|->)resolveWildcard\(\)\.size\(\)$", k) for k, p in g) or \
+            any(p is False and re.match(el, k) and re.search(r"(\.|->)resolveWildcard\(\)\.empty\(\)$", k) for k, p in g)
+        ctx.check(ex.text(write_rhs(ex, w)) == "true" and matched, "exists:true-iff-some-match", "guarded_by", ex.loc(w), "set when some pattern resolves to an existing cgroup", "match flag written with %s under %s" % (ex.text(write_rhs(ex, w)), sorted(g, key=str)))
+    # the decision: flag xor negate, as a flip of the flag under negate_ or as a value computed from both
+    NEG_FORMS = ("(this->negate_ ? !var:%s : var:%s)" % (FL, FL), "(var:%s != this->negate_)" % FL, "(this->negate_ != var:%s)" % FL, "(var:%s ^ this->negate_)" % FL, "(this->negate_ ^ var:%s)" % FL)
+    flips = [w for w in after if ex.text(write_rhs(ex, w)) == "!" + FL]
+    other = [w for w in after if w not in flips]
+    t = sorted(ex.text(write_rhs(ex, w)) for w in ws)
+    decided_by = set()
+    for r, leaf in return_leaves(ex):
+        c = ret_const_of(ex, leaf)
+        g = fx.guards(leaf)
+        ge = expanded_guards(P, ex, fx, leaf, Xe)
+        pol = True if c == "CONTINUE" else (False if c == "STOP" else None)
+        via_flag = pol is not None and (FL, pol) in g
+        via_value = pol is not None and any(k in NEG_FORMS and p is pol for k, p in ge)
+        if via_flag:
+            decided_by.add("flag")
+        if via_value:
+            decided_by.add("value")
+        ctx.check(via_flag or via_value, "exists:return-table:" + str(c), "return_table", ex.loc(r), "CONTINUE iff (exists xor negate)",
                   "%s under %s" % (c, sorted(g, key=str)))
+    okf = not other and ((decided_by == {"flag"} and len(flips) == 1 and ("this->negate_", True) in fx.guards(flips[0]) and
+                          [(k, p) for k, p in fx.guards(flips[0]) if not is_loop_control_fact(k) and k != "this->negate_"] == []) or
+                         (decided_by == {"value"} and not flips))
+    ctx.check(okf, "exists:flag-writes", "value-shape", ex.loc(), "the outcome is the match flag, negated exactly when 'negate' is configured", "match flag written with %s; returns decided by %s" % (t, sorted(decided_by)))
+    for w in flips:
+        ctx.check(("this->negate_", True) in fx.guards(w), "exists:negate", "guarded_by", ex.loc(w), "negated only with 'negate'", "negated under %s" % sorted(fx.guards(w), key=str))
     # ------------------------------------------------ nr_dying_descendants
     nd = ctx.fn1("Oomd::NrDyingDescendants::run")
     fn_ = Flow(P, nd, cg=cg)
-    for r in returns(nd):
-        c = ret_const(nd, r)
-        g = fn_.guards(r)
+    for r, leaf in return_leaves(nd):
+        c = ret_const_of(nd, leaf)
+        g = fn_.guards(leaf)
         if c == "CONTINUE":
             comp = [k for k, p in g if p is True and "lte_" in k and "count_" in k]
             V = r"(\*\w+|\w+\.value\(\)|\w+)"
             forms = (r"^\(\(this->lte_ && \(%s <= this->count_\)\) \|\| \(!this->lte_ && \(%s > this->count_\)\)\)$" % (V, V),
                      r"^\(this->lte_ \? \(%s <= this->count_\) : \(%s > this->count_\)\)$" % (V, V))
-            ok_cmp = len(comp) == 1 and any(re.match(fm, comp[0]) for fm in forms)
+            ok_cmp = len(comp) == 1 and any(re.match(fm_, comp[0]) for fm_ in forms)
             ctx.check(ok_cmp, "nr_dying_descendants:comparison", "return_table", nd.loc(r), "CONTINUE iff (lte ? nr <= count : nr > count) for some cgroup", "CONTINUE under %s" % comp)
             # a cgroup whose statistic is unavailable is no match: the compared value is an optional that was tested, not a default
             avail = any(p is True and (k.endswith("nr_dying_descendants(nullptr)") or re.match(r"^\w+(\.has_value\(\))?$", k)) for k, p in g if "lte_" not in k)
@@ -274,13 +386,32 @@ def run(ctx):
         else:
             ctx.check(c == "STOP", "nr_dying_descendants:otherwise-STOP", "return_table", nd.loc(r), "otherwise STOP", "returns " + str(c))
     # ------------------------------------------------ watched value of memory_above: the largest usage
-    ctx.anchor(ma, "usage", "current_memory_usage")
     fma = Flow(P, ma, cg=cg)
-    for w in local_writes(ma, "current_memory_usage"):
+    Xm = Expander(P, ma)
+    n_w = 0
+    for w in local_writes(ma, MA_W):
+        n_w += 1
         g = fma.guards(w)
-        ctx.check(ma.text(write_rhs(ma, w)) == "usage" and ("(current_memory_usage < usage)", True) in g, "memory_above:largest-usage", "guarded_by", ma.loc(w), "the watched value is the largest usage among the cgroups",
-                  "current_memory_usage written under %s" % sorted(g, key=str))
-    init, v = local_init(ma, "usage")
-    ctx.check(v is not None and ma.text(init) == "(this->is_anon_ ? cgroup_ctx.anon_usage(nullptr).value_or(0) : cgroup_ctx.current_usage(nullptr).value_or(0))", "memory_above:usage-source", "value-shape", ma.loc(),
-              "usage is anon or total usage as configured", "usage = " + (ma.text(init) if v else "?"))
+        U = ma.text(write_rhs(ma, w))
+        ctx.check(("(%s < %s)" % (MA_W, U), True) in g, "memory_above:largest-usage", "guarded_by", ma.loc(w), "the watched value is the largest usage among the cgroups",
+                  "%s written with %s under %s" % (MA_W, U, sorted(g, key=str)))
+        # what U holds: anon usage with is_anon_, total usage without
+        srcs = []
+        if re.match(r"^\w+$", U):
+            init, v = local_init(ma, U, must=False)
+            if v is not None and init is not None and init >= 0:
+                srcs += [(ma.text(x), fma.guards(x)) for x in value_leaves(ma, init)]
+            srcs += [(ma.text(x), fma.guards(x)) for w2 in local_writes(ma, U, must=False) for x in value_leaves(ma, write_rhs(ma, w2))]
+        else:
+            srcs = [(ma.text(x), fma.guards(x)) for x in value_leaves(ma, write_rhs(ma, w))]
+        oku = bool(srcs)
+        for t_, g_ in srcs:
+            if re.search(r"\.anon_usage\(nullptr\)\.value_or\(0\)$", t_):
+                oku = oku and ("this->is_anon_", True) in g_
+            elif re.search(r"\.current_usage\(nullptr\)\.value_or\(0\)$", t_):
+                oku = oku and ("this->is_anon_", False) in g_
+            else:
+                oku = False
+        ctx.check(oku, "memory_above:usage-source", "value-shape", ma.loc(w), "usage is anon or total usage as configured", "usage comes from " + str([t_ for t_, _ in srcs]))
+    ctx.check(n_w >= 1, "memory_above:watched-value-written", "anchor", ma.loc(), "the watched value is computed in run()", "the watched value is never written")
     ctx.floor("window_writes", 6, "writes of hit_thres_at_ in the three windowed detectors")
